@@ -138,6 +138,35 @@ impl Oracle for C05 {
                             );
                         } else {
                             out.count("comparisons");
+                            // the same request followed through small pages (page size 1 and 2
+                            // through hook H3): the sum over all pages must be the same balance
+                            let n = paged.all().len();
+                            for lim in [1usize, 2] {
+                                if n <= lim {
+                                    continue;
+                                }
+                                match w.utxos_all(&text, *c, Some(lim)) {
+                                    Ok(Ok(pg)) => {
+                                        let psum: u64 = pg.all().iter().map(|x| x.value).sum();
+                                        if pg.follow_up_error.is_some() || psum != *bal {
+                                            out.violation(
+                                                "balance-vs-paged-utxo-sum",
+                                                None,
+                                                json!({"address": text, "address_name": w.book.addrs[a].name, "c": c, "page_size": lim,
+                                                       "balance": bal, "paged_utxo_sum": psum, "pages": pg.pages.len(),
+                                                       "follow_up_error": pg.follow_up_error.as_ref().map(|e| format!("{:?}", e)), "ingesting": ingesting}),
+                                            );
+                                        } else {
+                                            out.count("comparisons_through_small_pages");
+                                            if c.unwrap_or(0) >= 1 {
+                                                out.count("comparisons_through_small_pages_with_min_confirmations");
+                                            }
+                                        }
+                                    }
+                                    Ok(Err(e)) => out.violation("paged-request-refused", None, json!({"address": text, "c": c, "page_size": lim, "error": format!("{:?}", e)})),
+                                    Err(pn) => out.violation("trap", None, json!({"address": text, "c": c, "page_size": lim, "panic": pn})),
+                                }
+                            }
                             out.outcomes.insert(fp64(&[&sum.to_le_bytes()[..], &[a as u8]].concat()));
                             if sum > 0 {
                                 out.count("comparisons_nonzero");
@@ -263,9 +292,11 @@ pub fn run(tier: &str) -> i32 {
                    "bodies": bodies, "max_non_default_bodies": sp, "ingestion_budgets": budgets}),
         );
     }
-    rep.rule = "LEDGER histories with sliced ingestion events (budgets 1, 2, unlimited, so states during ingestion are reached); in every state, for every book address and c in {none, 0..L+1}: get_balance vs the sum over all pages of get_utxos; error classes of both on ~45 malformed / foreign-network strings; query vs update variants".into();
+    rep.rule = "LEDGER histories with sliced ingestion events (budgets 1, 2, unlimited, so states during ingestion are reached); in every state, for every book address and c in {none, 0..L+1}: get_balance vs the sum over all pages of get_utxos (page size 1000, and 1 and 2 through hook H3); error classes of both on ~45 malformed / foreign-network strings; query vs update variants".into();
     rep.bounds = json!({"tier": tier});
     rep.assume("differential oracle: no reference value is needed, the two endpoints are compared with each other");
+    rep.floor("comparisons_through_small_pages", 1000);
+    rep.floor("comparisons_through_small_pages_with_min_confirmations", 100);
     rep.floor("comparisons_nonzero", 10_000);
     rep.floor("comparisons_nonzero_on_forked_state", 1000);
     rep.floor("comparisons_nonzero_during_paused_ingestion", 100);
